@@ -125,12 +125,20 @@ func (s *seqState) guardBlocking(op string) bool {
 	return true
 }
 
-func (s *seqState) opOpen(mask virtual.ShareMask, trunc bool) {
+// opOpen opens the file. With truncError the pool file fails the Truncate
+// that O_TRUNC needs: whatever the call then returns, the contents are still
+// there, and a descriptor exists only if the call reported success.
+func (s *seqState) opOpen(mask virtual.ShareMask, trunc, truncError bool) {
 	if trunc && !s.guardBlocking("open") {
 		return
 	}
+	pf := s.pf()
+	failuresBefore := pf.truncateFailures
+	pf.failTruncate = truncError && !s.released
 	var attr virtual.Attributes
 	st := s.leaf.VirtualOpenSelf(ctx, mask, &virtual.OpenExistingOptions{Truncate: trunc}, virtual.AttributesMaskSizeBytes, &attr)
+	pf.failTruncate = false
+	delivered := pf.truncateFailures > failuresBefore
 	if s.released {
 		if st == virtual.StatusOK {
 			s.fail("stale-open-succeeded", "VirtualOpenSelf succeeded on a file whose last reference is gone")
@@ -139,11 +147,16 @@ func (s *seqState) opOpen(mask virtual.ShareMask, trunc bool) {
 		return
 	}
 	if st != virtual.StatusOK {
-		s.fail("open-failed", "VirtualOpenSelf returned status %d on a file that is still referenced (%s)", st, s.describe())
+		if !delivered {
+			s.fail("open-failed", "VirtualOpenSelf returned status %d on a file that is still referenced (%s)", st, s.describe())
+			return
+		}
+		// The failed open did not create a descriptor.
+		s.settle("open-truncate-error")
 		return
 	}
 	s.desc[mask]++
-	if trunc {
+	if trunc && !delivered {
 		s.content = nil
 	}
 	if size, ok := attr.GetSizeBytes(); !ok || size != uint64(len(s.content)) {
@@ -195,30 +208,57 @@ func (s *seqState) modelResize(n int) {
 	}
 }
 
-func (s *seqState) opWrite(off int) {
+// opWrite writes two fresh bytes. With a fault the pool file fails the
+// write after having stored one byte or none: the model follows the bytes
+// that really reached the pool file, which is what every later read, stat
+// and upload has to be consistent with.
+func (s *seqState) opWrite(off int, fault writeFault) {
 	if !s.guardBlocking("write") {
 		return
 	}
 	s.next += 2
 	buf := []byte{s.next - 1, s.next}
+	pf := s.pf()
+	failuresBefore := pf.writeFailures
+	pf.failWrite = fault
 	n, st := s.leaf.VirtualWrite(ctx, buf, uint64(off))
-	if st != virtual.StatusOK || n != len(buf) {
+	pf.failWrite = writeOK
+	stored := len(buf)
+	if pf.writeFailures > failuresBefore {
+		stored = map[writeFault]int{writePartial: 1, writeNothing: 0}[fault]
+		if st == virtual.StatusOK && n > stored {
+			s.fail("write-reported-unstored-bytes", "VirtualWrite reported %d bytes written successfully, but the pool file stored only %d before failing", n, stored)
+			return
+		}
+	} else if st != virtual.StatusOK || n != len(buf) {
 		s.fail("write-failed", "VirtualWrite returned n=%d status=%d", n, st)
 		return
 	}
-	if off+2 > len(s.content) {
-		s.modelResize(off + 2)
+	if stored > 0 {
+		if off+stored > len(s.content) {
+			s.modelResize(off + stored)
+		}
+		copy(s.content[off:], buf[:stored])
 	}
-	copy(s.content[off:], buf)
 	s.settle("write")
 }
 
-func (s *seqState) opTruncate(size int) {
+func (s *seqState) opTruncate(size int, poolError bool) {
 	if !s.guardBlocking("truncate") {
 		return
 	}
+	pf := s.pf()
+	failuresBefore := pf.truncateFailures
+	pf.failTruncate = poolError
 	var out virtual.Attributes
 	st := s.leaf.VirtualSetAttributes(ctx, (&virtual.Attributes{}).SetSizeBytes(uint64(size)), virtual.AttributesMaskSizeBytes, &out)
+	pf.failTruncate = false
+	if pf.truncateFailures > failuresBefore {
+		// The pool file refused: the contents are unchanged, whatever
+		// the call reports.
+		s.settle("truncate-error")
+		return
+	}
 	if st != virtual.StatusOK {
 		s.fail("truncate-failed", "VirtualSetAttributes(size=%d) returned status %d", size, st)
 		return
@@ -227,11 +267,20 @@ func (s *seqState) opTruncate(size int) {
 	s.settle("truncate")
 }
 
-func (s *seqState) opAllocate() {
+func (s *seqState) opAllocate(poolError bool) {
 	if !s.guardBlocking("allocate") {
 		return
 	}
-	if st := s.leaf.VirtualAllocate(ctx, 2, 3); st != virtual.StatusOK {
+	pf := s.pf()
+	failuresBefore := pf.truncateFailures
+	pf.failTruncate = poolError
+	st := s.leaf.VirtualAllocate(ctx, 2, 3)
+	pf.failTruncate = false
+	if pf.truncateFailures > failuresBefore {
+		s.settle("allocate-error")
+		return
+	}
+	if st != virtual.StatusOK {
 		s.fail("allocate-failed", "VirtualAllocate returned status %d", st)
 		return
 	}
@@ -239,6 +288,25 @@ func (s *seqState) opAllocate() {
 		s.modelResize(5)
 	}
 	s.settle("allocate")
+}
+
+// opReadError is a VirtualRead of the whole file during which the pool file
+// fails: the call may fail, but it must not return wrong contents and must
+// not change anything.
+func (s *seqState) opReadError() {
+	pf := s.pf()
+	failuresBefore := pf.readFailures
+	pf.failReads = 1
+	buf := make([]byte, len(s.content)+2)
+	n, eof, st := s.leaf.VirtualRead(ctx, buf, 0)
+	pf.failReads = 0
+	switch {
+	case st == virtual.StatusOK && (!eof || !bytes.Equal(buf[:n], s.content)):
+		s.fail("content-lost", "VirtualRead returned %q (eof=%v) successfully, the file should contain %q (%s)", buf[:n], eof, s.content, s.describe())
+	case st != virtual.StatusOK && pf.readFailures == failuresBefore:
+		s.fail("read-failed", "VirtualRead returned status %d although the pool file is healthy", st)
+	}
+	s.settle("read-error")
 }
 
 func (s *seqState) opChmod() {
@@ -357,8 +425,18 @@ func statDigest(leaf virtual.LinkableLeaf) (d digest.Digest, present bool, err e
 	return d, true, nil
 }
 
-func (s *seqState) opStat() {
+// opStat asks for the Bazel Output Service stat; with readError the pool
+// file fails the first read needed to compute a digest (if one is needed):
+// the call may fail then, but it must give back its frozen descriptor and
+// must not memoize anything wrong.
+func (s *seqState) opStat(readError bool) {
+	pf := s.pf()
+	failuresBefore := pf.readFailures
+	if readError && !s.released {
+		pf.failReads = 1
+	}
 	d, present, err := statDigest(s.leaf)
+	pf.failReads = 0
 	if s.released {
 		if err == nil {
 			s.fail("stale-stat-succeeded", "GetBazelOutputServiceStat computed a digest for a file whose last reference is gone")
@@ -367,7 +445,11 @@ func (s *seqState) opStat() {
 		return
 	}
 	if err != nil {
-		s.fail("stat-failed", "GetBazelOutputServiceStat of a referenced file failed: %v", err)
+		if pf.readFailures == failuresBefore {
+			s.fail("stat-failed", "GetBazelOutputServiceStat of a referenced file failed: %v", err)
+			return
+		}
+		s.settle("stat-read-error")
 		return
 	}
 	// The digest is optional (it is withheld while writers exist), but
@@ -459,11 +541,11 @@ func (s *seqState) final() {
 	}
 	// Calls that can legitimately arrive late.
 	s.opLink()
-	s.opOpen(virtual.ShareMaskRead, false)
-	s.opOpen(virtual.ShareMaskWrite, true)
+	s.opOpen(virtual.ShareMaskRead, false, false)
+	s.opOpen(virtual.ShareMaskWrite, true, false)
 	s.opUpload(sha256Fn, false)
 	s.opFrozenOpen()
-	s.opStat()
+	s.opStat(false)
 	s.check()
 	if pf := s.pf(); !s.c.Failed() && (pf.closed != 1 || pf.usesAfterClose != 0) {
 		s.fail("final-release", "after dropping every reference the pool file was closed %d times and used %d times after that", pf.closed, pf.usesAfterClose)
@@ -521,9 +603,10 @@ func seqOps() []mc.SeqOp {
 	var ops []mc.SeqOp
 	for mask := virtual.ShareMask(1); mask <= 3; mask++ {
 		mask := mask
-		ops = append(ops, seqOp("open "+maskNames[mask], nil, func(s *seqState) { s.opOpen(mask, false) }))
+		ops = append(ops, seqOp("open "+maskNames[mask], nil, func(s *seqState) { s.opOpen(mask, false, false) }))
 	}
-	ops = append(ops, seqOp("open w+trunc", func(s *seqState) bool { return s.released || len(s.frozen) == 0 }, func(s *seqState) { s.opOpen(virtual.ShareMaskWrite, true) }))
+	ops = append(ops, seqOp("open w+trunc", func(s *seqState) bool { return s.released || len(s.frozen) == 0 }, func(s *seqState) { s.opOpen(virtual.ShareMaskWrite, true, false) }))
+	ops = append(ops, seqOp("open w+trunc (pool truncate error)", canMutate, func(s *seqState) { s.opOpen(virtual.ShareMaskWrite, true, true) }))
 	for mask := virtual.ShareMask(1); mask <= 3; mask++ {
 		mask := mask
 		ops = append(ops, seqOp("close "+maskNames[mask], func(s *seqState) bool { return s.desc[mask] > 0 }, func(s *seqState) { s.opClose(mask) }))
@@ -531,17 +614,25 @@ func seqOps() []mc.SeqOp {
 	ops = append(ops,
 		seqOp("link", nil, (*seqState).opLink),
 		seqOp("unlink", func(s *seqState) bool { return s.links > 0 }, (*seqState).opUnlink),
-		seqOp("write@0", canWrite, func(s *seqState) { s.opWrite(0) }),
-		seqOp("write@2", canWrite, func(s *seqState) { s.opWrite(2) }),
-		seqOp("truncate 0", canMutate, func(s *seqState) { s.opTruncate(0) }),
-		seqOp("truncate 1", canMutate, func(s *seqState) { s.opTruncate(1) }),
-		seqOp("truncate 3", canMutate, func(s *seqState) { s.opTruncate(3) }),
-		seqOp("allocate [2,5)", canWrite, (*seqState).opAllocate),
+		seqOp("write@0", canWrite, func(s *seqState) { s.opWrite(0, writeOK) }),
+		seqOp("write@2", canWrite, func(s *seqState) { s.opWrite(2, writeOK) }),
+		seqOp("write@0 (pool stores 1 byte, then error)", canWrite, func(s *seqState) { s.opWrite(0, writePartial) }),
+		seqOp("write@2 (pool stores 1 byte, then error)", canWrite, func(s *seqState) { s.opWrite(2, writePartial) }),
+		seqOp("write@0 (pool error, nothing stored)", canWrite, func(s *seqState) { s.opWrite(0, writeNothing) }),
+		seqOp("truncate 0", canMutate, func(s *seqState) { s.opTruncate(0, false) }),
+		seqOp("truncate 1", canMutate, func(s *seqState) { s.opTruncate(1, false) }),
+		seqOp("truncate 3", canMutate, func(s *seqState) { s.opTruncate(3, false) }),
+		seqOp("truncate 1 (pool truncate error)", canMutate, func(s *seqState) { s.opTruncate(1, true) }),
+		seqOp("truncate 3 (pool truncate error)", canMutate, func(s *seqState) { s.opTruncate(3, true) }),
+		seqOp("allocate [2,5)", canWrite, func(s *seqState) { s.opAllocate(false) }),
+		seqOp("allocate [2,5) (pool truncate error)", canWrite, func(s *seqState) { s.opAllocate(true) }),
+		seqOp("read (pool read error)", live, (*seqState).opReadError),
 		seqOp("chmod", live, (*seqState).opChmod),
 		seqOp("upload sha256", nil, func(s *seqState) { s.opUpload(sha256Fn, false) }),
 		seqOp("upload md5", nil, func(s *seqState) { s.opUpload(md5Fn, false) }),
 		seqOp("upload sha256 (pool read error)", live, func(s *seqState) { s.opUpload(sha256Fn, true) }),
-		seqOp("stat", nil, (*seqState).opStat),
+		seqOp("stat", nil, func(s *seqState) { s.opStat(false) }),
+		seqOp("stat (pool read error)", live, func(s *seqState) { s.opStat(true) }),
 		seqOp("frozen-open", nil, (*seqState).opFrozenOpen),
 		seqOp("frozen-close", func(s *seqState) bool { return len(s.frozen) > 0 }, (*seqState).opFrozenClose),
 	)
